@@ -1,7 +1,7 @@
 (* C02 - A membership verification that succeeds is always a true membership.
    Statement only; the proof is `exact` a lemma of Balloon/BalloonProofs.v. *)
 From QV Require Import Base.Util Base.HashSig History.HistModel History.HistSpec Hyper.HyperModel
-  Balloon.Balloon Balloon.BalloonProofs Balloon.AutoVerify Balloon.AutoVerifyProofs Properties.Instance Base.Layout Base.Enc.
+  Balloon.Balloon Balloon.BalloonProofs Balloon.AutoVerify Balloon.AutoVerifyProofs Properties.Instance Base.Layout Base.Enc History.HistGuard.
 
 Section C02.
   Variables D E V : Type.
@@ -95,8 +95,18 @@ Example C02_formats_premises_hold :
   hwf_prod N (HLeaf (repeat 3 32) 7) /\ hwf_prod N (HPart (repeat 3 32) 6 1).
 Proof. split; [exact byte_inj_N|]. pose proof wf_inputs_exist as W. tauto. Qed.
 
+(* Why the guard "ActualVersion <= QueryVersion" of DigestVerify is essential and cannot be left to the history verifier
+   (premise idx <= v' of the soundness lemma; seeded change C02-9 replaced it by an in-tree check): for an index beyond the
+   version but inside the tree's capacity the recomputed history root does not depend on the digest at all - for EVERY audit
+   path.  A forger who supplies the genuine left siblings gets his answer accepted for any digest. *)
+Theorem C02_history_verifier_ignores_digest_beyond_version (D E V : Type) (H : hin D E V -> D) (path : cache D) (idx v : N) (e e' : E) :
+  v < idx -> idx < pow2 (bitlen v) ->
+  membership_root D E V H path idx v e = membership_root D E V H path idx v e'.
+Proof. exact (membership_root_ignores_digest_beyond_version D E V H path idx v e e'). Qed.
+
 Print Assumptions C02_digest_verify_sound.
 Print Assumptions C02_auto_verify_sound.
 Print Assumptions C02_incr_auto_verify_sound.
 Print Assumptions C02_hash_formats_unambiguous.
 Print Assumptions C02_injectivity_failure_is_a_hash_collision.
+Print Assumptions C02_history_verifier_ignores_digest_beyond_version.
